@@ -119,8 +119,11 @@ def _value(rng: random.Random, dom: str, depth: int) -> Any:
     return frozenset(rng.choice(INTS) for _ in range(n))
 
 
-def exception(rng: random.Random, dom: str) -> Exception:
+def exception(rng: random.Random, dom: str, size: int | None = None) -> Exception:
+    """`size` adds a long string argument so that the serialized exception is externalised."""
     args = tuple(rng.choice([rng.choice(INTS[:6]), rng.choice(STRINGS), None, 1.5]) for _ in range(rng.randint(0, 3)))
+    if size:
+        args = args + ("e" * size,)
     cls = rng.choice([ValueError, KeyError, RuntimeError, ZeroDivisionError, AppError, AppError])
     return cls(*args)
 
